@@ -2,29 +2,33 @@
    Only statements + `exact` of lemmas proved in Diag/FlagsProofs.v, Diag/FlagsWarn.v and
    Diag/RenderProofs.v, each followed by Print Assumptions.
 
-   `complete tr s`: tr is a well-bracketed event trace of the frontend (every event admissible, the
+   `complete pinned tr s`: tr is a well-bracketed event trace of the frontend (every event admissible, the
    root's Parse returned) and s the final state. any_faulty = the root or some imported module has
    Ast.Faulty; delivered_error = the caller's handler received a LEVEL_ERROR diagnostic.
 
-   The full equivalence does NOT hold for the code in /repo (two refutations, both replayed on the
-   real frontend by checks/c07.py); what holds is stated as *_partial under the hypotheses
-   no_stale_flag / no_root_scanner_error, which are exactly the negations of the two defects. *)
+   The machine takes a configuration: `pinned` = the code as pinned, `repaired` = the code with the
+   three proposed repairs (checks/c07.py determines on every run which one /repo is).
+   For `pinned` the full equivalence does NOT hold (two refutations, both replayed on the real
+   frontend by checks/c07.py); what holds is stated as *_partial under the hypotheses
+   no_stale_flag / no_root_scanner_error, which are exactly the negations of the two defects.
+   For `repaired` the equivalence, the exit status and the no-artefact statement hold for every
+   well-bracketed trace without hypotheses (theorems ending in _repaired). *)
 From Coq Require Import List NArith Bool.
 Import ListNotations.
-From DDP Require Import Diag.Flags Diag.FlagsProofs Diag.FlagsWarn Diag.Render Diag.RenderProofs.
+From DDP Require Import Diag.Flags Diag.FlagsProofs Diag.FlagsWarn Diag.FlagsRepaired Diag.Render Diag.RenderProofs.
 Close Scope N_scope.
 
 (* REFUTED, direction Faulty -> diagnostic: a discarded candidate instantiation of an imported
    generic leaves the declaring module flagged although nothing was delivered *)
 Theorem C07_faulty_iff_delivered_refuted :
-  exists tr s, complete tr s /\ any_faulty s = true /\ root_faulty s = false /\ delivered_error s = false.
+  exists tr s, complete pinned tr s /\ any_faulty s = true /\ root_faulty s = false /\ delivered_error s = false.
 Proof. exact faulty_iff_delivered_refuted. Qed.
 Print Assumptions C07_faulty_iff_delivered_refuted.
 
 (* REFUTED, direction diagnostic -> Faulty: an error of the root module's scanner bypasses the
    wrapper that sets parser.errored *)
 Theorem C07_delivered_imp_faulty_refuted :
-  exists tr s, complete tr s /\ delivered_error s = true /\ any_faulty s = false.
+  exists tr s, complete pinned tr s /\ delivered_error s = true /\ any_faulty s = false.
 Proof. exact delivered_imp_faulty_refuted. Qed.
 Print Assumptions C07_delivered_imp_faulty_refuted.
 
@@ -32,7 +36,7 @@ Print Assumptions C07_delivered_imp_faulty_refuted.
    being parsed and the root's scanner reported no error, (root or an imported module Faulty) <->
    an error-level diagnostic was delivered *)
 Theorem C07_faulty_iff_delivered_partial :
-  forall tr s, complete tr s -> no_stale_flag s -> no_root_scanner_error s ->
+  forall tr s, complete pinned tr s -> no_stale_flag s -> no_root_scanner_error s ->
     (any_faulty s = true <-> delivered_error s = true).
 Proof. exact faulty_iff_delivered_partial. Qed.
 Print Assumptions C07_faulty_iff_delivered_partial.
@@ -47,55 +51,74 @@ Print Assumptions C07_any_faulty_is_root_or_imported.
 
 (* the two directions need one hypothesis each *)
 Theorem C07_faulty_imp_delivered_partial :
-  forall tr s, complete tr s -> no_stale_flag s -> any_faulty s = true -> delivered_error s = true.
+  forall tr s, complete pinned tr s -> no_stale_flag s -> any_faulty s = true -> delivered_error s = true.
 Proof. exact faulty_imp_delivered. Qed.
 Print Assumptions C07_faulty_imp_delivered_partial.
 
 Theorem C07_delivered_imp_root_faulty_partial :
-  forall tr s, complete tr s -> no_root_scanner_error s -> delivered_error s = true -> root_faulty s = true.
+  forall tr s, complete pinned tr s -> no_root_scanner_error s -> delivered_error s = true -> root_faulty s = true.
 Proof. exact delivered_imp_root_faulty. Qed.
 Print Assumptions C07_delivered_imp_root_faulty_partial.
 
 (* exit status of `kddp kompiliere` with the default options; cg = the code generator succeeds *)
 Theorem C07_exit_nonzero_iff_partial :
-  forall tr s cg, complete tr s -> no_stale_flag s -> no_root_scanner_error s ->
-    (exit_status (compile true cg s) <> 0 <-> delivered_error s = true \/ cg = false).
+  forall tr s cg, complete pinned tr s -> no_stale_flag s -> no_root_scanner_error s ->
+    (exit_status (compile pinned true cg s) <> 0 <-> delivered_error s = true \/ cg = false).
 Proof. exact exit_nonzero_iff_partial. Qed.
 Print Assumptions C07_exit_nonzero_iff_partial.
 
 Theorem C07_exit_nonzero_iff_refuted :
-  (exists tr s, complete tr s /\ delivered_error s = true /\ exit_status (compile true true s) = 0) /\
-  (exists tr s, complete tr s /\ delivered_error s = false /\ exit_status (compile true true s) <> 0).
+  (exists tr s, complete pinned tr s /\ delivered_error s = true /\ exit_status (compile pinned true true s) = 0) /\
+  (exists tr s, complete pinned tr s /\ delivered_error s = false /\ exit_status (compile pinned true true s) <> 0).
 Proof. exact exit_nonzero_iff_refuted. Qed.
 Print Assumptions C07_exit_nonzero_iff_refuted.
 
-(* FULL: runs whose events are all warning-level never flag a module, never fail, always yield the object *)
+(* FULL (pinned and repaired code alike): runs whose events are all warning-level never flag a module,
+   never fail, always yield the object *)
 Theorem C07_warnings_never_fail :
-  forall tr s lm, complete tr s -> forallb warn_only tr = true ->
+  forall cfg tr s lm, complete cfg tr s -> forallb warn_only tr = true ->
     any_faulty s = false /\ delivered_error s = false /\
-    exit_status (compile lm true s) = 0 /\ artifact (compile lm true s) = true.
+    exit_status (compile cfg lm true s) = 0 /\ artifact (compile cfg lm true s) = true.
 Proof. exact warnings_never_fail. Qed.
 Print Assumptions C07_warnings_never_fail.
 
 (* FULL: with the default options a flagged module never yields an object *)
 Theorem C07_no_artifact_when_faulty :
-  forall s cg, any_faulty s = true -> artifact (compile true cg s) = false.
+  forall s cg, any_faulty s = true -> artifact (compile pinned true cg s) = false.
 Proof. exact no_artifact_when_faulty. Qed.
 Print Assumptions C07_no_artifact_when_faulty.
 
 Theorem C07_no_artifact_on_failure_partial :
-  forall tr s cg, complete tr s -> no_root_scanner_error s -> delivered_error s = true ->
-    artifact (compile true cg s) = false.
+  forall tr s cg, complete pinned tr s -> no_root_scanner_error s -> delivered_error s = true ->
+    artifact (compile pinned true cg s) = false.
 Proof. exact no_artifact_on_failure_partial. Qed.
 Print Assumptions C07_no_artifact_on_failure_partial.
 
 (* REFUTED: an object despite a delivered error (root scanner error), and with --module-linken=false
    the Faulty flag is not consulted at all *)
 Theorem C07_no_artifact_on_failure_refuted :
-  (exists tr s, complete tr s /\ delivered_error s = true /\ artifact (compile true true s) = true) /\
-  (forall s, artifact (compile false true s) = true).
+  (exists tr s, complete pinned tr s /\ delivered_error s = true /\ artifact (compile pinned true true s) = true) /\
+  (forall s, artifact (compile pinned false true s) = true).
 Proof. exact no_artifact_on_failure_refuted. Qed.
 Print Assumptions C07_no_artifact_on_failure_refuted.
+
+(* ---- the repaired configuration: full statements ------------------------------------------------ *)
+Theorem C07_faulty_iff_delivered_repaired :
+  forall tr s, complete repaired tr s -> (any_faulty s = true <-> delivered_error s = true).
+Proof. exact faulty_iff_delivered_repaired. Qed.
+Print Assumptions C07_faulty_iff_delivered_repaired.
+
+Theorem C07_exit_nonzero_iff_repaired :
+  forall tr s lm cg, complete repaired tr s ->
+    (exit_status (compile repaired lm cg s) <> 0 <-> delivered_error s = true \/ cg = false).
+Proof. exact exit_nonzero_iff_repaired. Qed.
+Print Assumptions C07_exit_nonzero_iff_repaired.
+
+Theorem C07_no_artifact_on_failure_repaired :
+  forall tr s lm cg, complete repaired tr s -> delivered_error s = true ->
+    artifact (compile repaired lm cg s) = false.
+Proof. exact no_artifact_on_failure_repaired. Qed.
+Print Assumptions C07_no_artifact_on_failure_repaired.
 
 (* ---- ranges and the excerpt renderer ---------------------------------------------------------- *)
 (* FULL (for the renderer): for every text, every 64-bit range with 1 <= Start.Line <= End.Line and
